@@ -52,7 +52,7 @@ def via_default(I, v, path, what):
     if isinstance(d, Raised):
         raise Problem('%s: %s is left in the dictionary (%s: Object of type %s is not JSON serializable)'
                       % (path, what[0], d.exc, what[1]))
-    if d is v:
+    if d is v and isinstance(v, (ListV, DictV, Obj)):
         raise Problem('%s: the encoder hands %s back as it is (ValueError: Circular reference detected)'
                       % (path, what[0]))
     return encode(I, d, path)
@@ -118,6 +118,46 @@ def foreign_object(label, cname, opaque_methods=None):
     return o
 
 
+_NPINT = [0]
+
+
+def numpy_integer(I, x, lpath, path):
+    """an entry of a list that holds numpy integers: json cannot write an np.int64 and hands it to the encoder's
+    default() (interpreted).  For the duration of that call the symbols of the entry are declared numpy integers
+    (I.np_syms), so that isinstance(o, np.integer / int / float) in default() is decided for what the entry is there"""
+    if isinstance(x, ListV):
+        return ListV([numpy_integer(I, y, lpath, '%s[%d]' % (path, i)) for i, y in enumerate(x.items)])
+    if not isinstance(x, Rat):
+        return encode(I, x, path)
+    saved_np, saved_int = dict(I.np_syms), set(I.int_syms)
+    stand_in = None
+    try:
+        if x.atoms():
+            arg = x
+        else:
+            # a literal (the 0 of intervals=[0, 1]): a symbol stands in for it while default() looks at its type
+            _NPINT[0] += 1
+            stand_in = 'npint%d' % _NPINT[0]
+            arg = I.D.sym(stand_in)
+        for a_ in arg.atoms():
+            I.np_syms[a_] = 'int64'
+            I.int_syms.add(a_)
+        d = call_default(I, arg)
+    finally:
+        I.np_syms.clear()
+        I.np_syms.update(saved_np)
+        I.int_syms.clear()
+        I.int_syms.update(saved_int)
+    if isinstance(d, Raised):
+        raise Problem('%s: the list holds numpy integers (%s: Object of type int64 is not JSON serializable; '
+                      'np.float64 is a float, np.int64 is not an int)' % (lpath, d.exc))
+    if stand_in is not None:
+        if isinstance(d, Rat) and d.eq(arg):
+            return x
+        raise Unsupported('what the encoder makes of the numpy integer %r at %s' % (x, path))
+    return encode(I, d, path)
+
+
 def encode(I, v, path='$'):
     """model of json.dumps(..., cls=pmuttEncoder) followed by json.loads without hook: json writes dict, list, tuple,
     str, int, float, bool and None itself and hands everything else - an object, a set, a map/filter/zip/generator
@@ -151,17 +191,17 @@ def encode(I, v, path='$'):
                                         else 'an iterator (a map / filter / reversed / zip / generator object)', kind))
     if isinstance(v, ListV):
         if getattr(v, 'is_array', False):
-            raise Problem('%s: a numpy array is left in the dictionary (TypeError: Object of type ndarray is not '
-                          'JSON serializable)' % path)
+            # json cannot write an ndarray: default() is asked (an encoder that knows numpy answers with tolist())
+            return via_default(I, v, path, ('a numpy array', 'ndarray'))
         if getattr(v, 'np_int', False) or getattr(v, 'dtype', None) == 'int':
             # list(arr)/tuple(arr)/[x for x in arr] of an integer array: a Python list of numpy integers
-            # (arr.tolist() gives ints).  The interpreter marks such a list np_int (or hands the element type on)
-            raise Problem('%s: the list holds numpy integers (TypeError: Object of type int64 is not JSON '
-                          'serializable; np.float64 is a float, np.int64 is not an int)' % path)
+            # (arr.tolist() gives ints).  The interpreter marks such a list np_int (or hands the element type on).
+            # json writes the list and asks default() for every entry: np.float64 is a float, np.int64 is not an int
+            return ListV([numpy_integer(I, x, path, '%s[%d]' % (path, i)) for i, x in enumerate(v.items)])
         return ListV([encode(I, x, '%s[%d]' % (path, i)) for i, x in enumerate(v.items)])
     if getattr(v, 'np_int', False):
         # a single numpy integer (an item of an integer array), should the interpreter mark scalars one day
-        raise Problem('%s: a numpy integer (TypeError: Object of type int64 is not JSON serializable)' % path)
+        return numpy_integer(I, v, path, path)
     if v is None or isinstance(v, (bool, int, float, Fr, str, SegStr, Rat)):
         return v
     # anything else (a zip object, a class, a function, a vector of unknown length ...) is no JSON value
@@ -580,7 +620,7 @@ def builders(I, repo):
                    **extra)
     # numbers typed without a decimal point (wavenumbers 3650, 1595; intervals 0, 1; a slope of 2): lists of Python
     # ints.  A class that turns such a list into an array holds numpy integers, and list() of that array is not
-    # something json can write (HarmonicVib does: see DEFECT3_C11 - its integer instance is not armed)
+    # something json can write itself: it is the encoder's default() that has to
     def ints(*names):
         I.int_syms.update(names)
         return ListV([D.sym(n_) for n_ in names])
@@ -595,6 +635,25 @@ def builders(I, repo):
     add('ExtendedLSR[integer slopes, numeric reactions]', lambda: new(
         S + 'lsr.ExtendedLSR', slopes=ints('e0i', 'e1i'), intercept=D.sym('eicpt'),
         reactions=ListV([D.sym('dE0'), D.sym('dE1')])))
+    # (fixed in f96063f: the encoder writes numpy integers as ints and arrays as lists) a class that turns the list
+    # into an array - HarmonicVib does - and the arrays of whole numbers a caller hands in as they are
+    def int_array(*names):
+        # what np.array([1, 2]) is for the interpreter: an array whose list()/iteration hands out numpy integers
+        return I.native['numpy.array'](I, fr, [ints(*names)], {}, None)
+    add('HarmonicVib[integer wavenumbers]', lambda: new(S + 'vib.HarmonicVib', vib_wavenumbers=ints('w0i', 'w1i')))
+    add('StatMech[integer wavenumbers]', lambda: new(
+        S + 'StatMech', name='h2o', trans_model=repo.cls(S + 'trans.FreeTrans'), n_degrees=C(3),
+        molecular_weight=D.sym('mw_h2o'), vib_model=repo.cls(S + 'vib.HarmonicVib'),
+        vib_wavenumbers=ints('w0i', 'w1i'), elements=DictV({'H': D.sym('nH_h2o')})))
+    add('PhaseDiagram[integer ndarray norm_factors]', lambda: new(
+        'pmutt.reaction.phasediagram.PhaseDiagram', reactions=ListV([rxn('pmutt.reaction.Reaction')]),
+        norm_factors=int_array('nfi0')))
+    add('Shomate[integer ndarray]', lambda: new(
+        'pmutt.empirical.shomate.Shomate', name='sh4', T_low=D.sym('Tsl'), T_high=D.sym('Tsh'),
+        a=int_array(*['shi%d' % i_ for i_ in range(8)]), elements=DictV({'C': D.sym('nC')}), phase='G'))
+    add('Reaction[integer ndarray stoichiometry]', lambda: rxn(
+        'pmutt.reaction.Reaction', reactants_stoich=int_array('nua1', 'nua2'), products_stoich=int_array('nua3'),
+        transition_state_stoich=int_array('nua4'), notes=None))
     add('Reaction[integer stoichiometry]', lambda: int_rxn('pmutt.reaction.Reaction'))
     add('ChemkinReaction[integer stoichiometry]', lambda: int_rxn('pmutt.reaction.ChemkinReaction',
                                                                   beta=D.sym('beta'), is_adsorption=False))
@@ -975,10 +1034,6 @@ MUTANTS = [
      'edits': [('pmutt/statmech/vib.py', "            'einstein_temperature': self.einstein_temperature,\n            'interaction_energy': self.interaction_energy",
                 "            'einstein_temperature': self.interaction_energy,\n            'interaction_energy': self.einstein_temperature")]},
     # ---- instances added after the white-box review (non-default options, documented ndarray attributes)
-    {'name': 'PhaseDiagram.to_dict leaves the array of normalisation factors in the dictionary',
-     'expect': ('TABLE.encode', 'PhaseDiagram'),
-     'edits': [('pmutt/reaction/phasediagram.py', "obj_dict['norm_factors'] = list(self.norm_factors)",
-                "obj_dict['norm_factors'] = self.norm_factors")]},
     {'name': 'SurfaceReaction.to_dict forgets is_adsorption', 'expect': ('TABLE.roundtrip', 'SurfaceReaction'),
      'edits': [('pmutt/omkm/reaction.py', "        obj_dict['is_adsorption'] = self.is_adsorption\n", "")]},
     {'name': 'ExtendedLSR.from_dict loses the notes', 'expect': ('TABLE.roundtrip', 'ExtendedLSR'),
@@ -986,8 +1041,6 @@ MUTANTS = [
                 "        json_obj['reactions'] = json_to_pmutt(json_obj['reactions'])\n",
                 "        json_obj['reactions'] = json_to_pmutt(json_obj['reactions'])\n"
                 "        json_obj.pop('notes', None)\n")]},
-    {'name': 'ExtendedLSR.to_dict leaves the array of slopes in the dictionary', 'expect': ('TABLE.encode', 'ExtendedLSR'),
-     'edits': [('pmutt/statmech/lsr.py', "'slopes': list(self.slopes),", "'slopes': self.slopes,")]},
     {'name': 'References.to_dict does not write the descriptor', 'expect': ('TABLE.roundtrip', 'References'),
      'edits': [('pmutt/empirical/references.py', "            'descriptor': self.descriptor,\n", "")]},
     {'name': 'Shomate.to_dict does not write the units', 'expect': ('TABLE.roundtrip', 'Shomate'),
@@ -1077,18 +1130,16 @@ MUTANTS += [
      'edits': [('pmutt/statmech/rot.py', "            'geometry': self.geometry,\n            'rot_temperatures'",
                 "            'geometry': 'nonlinear',\n            'rot_temperatures'")]},
 ]
-# to be armed once the interpreter gives arrays of Python ints an integer element type (REQ2_C11 item 1): today the
-# model has one number type and the mutant is not seen
-MUTANTS += [
-    {'name': 'Reaction keeps reactants_stoich as a numpy array (list() of it holds np.int64)',
-     'expect': ('TABLE.encode', 'Reaction'),
-     'edits': [(R_, "        val = _check_iterable_attr(val)\n        self._reactants_stoich = val\n",
-                "        val = _check_iterable_attr(val)\n        if val is not None:\n            val = np.array(val)\n"
-                "        self._reactants_stoich = val\n")]},
-]
 # ---- white-box review, round 3
 N_ = 'pmutt/empirical/nasa.py'
 SM_ = 'pmutt/statmech/__init__.py'
+# the branch of pmuttEncoder.default that writes numpy integers as ints (fix f96063f), taken out
+_NO_NPINT = (J_, "        if isinstance(o, np.integer):\n            return int(o)\n", "")
+MUTANTS += [
+    {'name': 'revert f96063f in part: the encoder no longer writes numpy integers (HarmonicVib with wavenumbers typed '
+             'as whole numbers cannot be encoded)',
+     'expect': ('TABLE.encode', 'HarmonicVib'), 'edits': [_NO_NPINT]},
+]
 MUTANTS += [
     {'name': 'Nasa.to_dict rounds the coefficients to the precision of the thermdat format (E15.8)',
      'expect': ('TABLE.roundtrip', 'Nasa'),
@@ -1112,14 +1163,14 @@ MUTANTS += [
                      "        except AttributeError:\n            obj_dict['references'] = self.references\n",
                 "        if self.references:\n            obj_dict['references'] = self.references.to_dict()\n"
                 "        else:\n            obj_dict['references'] = None\n")]},
-    {'name': 'QRRHOVib keeps its wavenumbers as an array like HarmonicVib (list() of an integer array holds np.int64)',
+    {'name': 'QRRHOVib keeps its wavenumbers as an array like HarmonicVib, under an encoder that does not know np.integer',
      'expect': ('TABLE.encode', 'QRRHOVib'),
      'edits': [(V_, "        self.vib_wavenumbers = vib_wavenumbers\n",
-                "        self.vib_wavenumbers = np.array(vib_wavenumbers)\n")]},
-    {'name': 'PiecewiseCovEffect keeps its slopes as an array (integer slopes cannot be written)',
+                "        self.vib_wavenumbers = np.array(vib_wavenumbers)\n"), _NO_NPINT]},
+    {'name': 'PiecewiseCovEffect keeps its slopes as an array, under an encoder that does not know np.integer',
      'expect': ('TABLE.encode', 'PiecewiseCovEffect'),
      'edits': [('pmutt/mixture/cov.py', "        self.slopes = slopes\n        self._set_intercepts()\n",
-                "        self.slopes = np.array(slopes)\n        self._set_intercepts()\n")]},
+                "        self.slopes = np.array(slopes)\n        self._set_intercepts()\n"), _NO_NPINT]},
     {'name': 'the encoder returns the text of an object without to_dict (repr) instead of refusing it',
      'expect': ('PATH.encoder', 'pmuttEncoder.default'),
      'edits': [(J_, "            super().default(o)\n", "            return '<{}>'.format(o.__class__.__name__)\n")]},
@@ -1154,6 +1205,17 @@ MUTANTS += [
                 "    def __init__(self, a, b):\n        self.a = a\n")]},
 ]
 EQUIV = [
+    # breaking before f96063f, harmless since: the encoder writes an array left in the dictionary as a list and the
+    # numpy integers of a list as ints
+    {'name': 'PhaseDiagram.to_dict leaves the array of normalisation factors in the dictionary (the encoder writes it)',
+     'edits': [('pmutt/reaction/phasediagram.py', "obj_dict['norm_factors'] = list(self.norm_factors)",
+                "obj_dict['norm_factors'] = self.norm_factors")]},
+    {'name': 'ExtendedLSR.to_dict leaves the array of slopes in the dictionary (the encoder writes it)',
+     'edits': [('pmutt/statmech/lsr.py', "'slopes': list(self.slopes),", "'slopes': self.slopes,")]},
+    {'name': 'Reaction keeps reactants_stoich as a numpy array (the encoder writes the numpy integers)',
+     'edits': [(R_, "        val = _check_iterable_attr(val)\n        self._reactants_stoich = val\n",
+                "        val = _check_iterable_attr(val)\n        if val is not None:\n            val = np.array(val)\n"
+                "        self._reactants_stoich = val\n")]},
     # white-box review, round 3: refactorings that were reported by mistake
     {'name': 'the encoder raises the TypeError of the base class itself (message built from o.__class__.__name__)',
      'edits': [(J_, "            super().default(o)\n",
